@@ -1,6 +1,8 @@
 package main
 
 import (
+	"fmt"
+
 	"verifharness/lib"
 )
 
@@ -132,10 +134,9 @@ func (s shape) alphabet() []opT {
 			for _, v := range s.vals {
 				al = append(al, def(l, n, v))
 			}
-			al = append(al, load(l, n), loadEntry(l, n), has(l, n))
-		}
-		for _, p := range s.preds {
-			al = append(al, discover(l, p))
+			// the side-effect free queries (has, get-entry, discover) are not part of the alphabet: the
+			// observers appended to every history ask all of them, and every prefix is enumerated too
+			al = append(al, load(l, n), loadEntry(l, n))
 		}
 	}
 	return al
@@ -165,10 +166,10 @@ func (s shape) observers() []opT {
 func (r *runner) exhaustive() {
 	cf := newCases()
 	maxLen := 3
-	coqBudget := 500
+	coqBudget := 260
 	if r.cfg.Thorough() {
 		maxLen = 4
-		coqBudget = 4000
+		coqBudget = 1800
 	}
 	total := 0
 	for _, s := range shapes() {
@@ -302,14 +303,20 @@ func randomHistory(r *lib.Rng, n int) []opT {
 }
 
 func (r *runner) random(rng *lib.Rng) {
-	cf := newCases()
-	n, toCoq := 20000, 250
+	// the histories sent to the model are spread over several files (evaluated in parallel by the driver)
+	n, files, perFile := 12000, 2, 70
 	if r.cfg.Thorough() {
-		n, toCoq = 400000, 3000
+		n, files, perFile = 400000, 6, 400
+	}
+	cfs := make([]*lib.CasesFile, files)
+	for i := range cfs {
+		cfs[i] = newCases()
 	}
 	for i := 0; i < n; i++ {
 		g := rng.Fork()
-		r.check(randomHistory(g, 6+g.Intn(45)), cf, i < toCoq, "random")
+		r.check(randomHistory(g, 6+g.Intn(45)), cfs[i%files], i < files*perFile, "random")
 	}
-	r.res.CorrFiles = append(r.res.CorrFiles, cf.WriteTo(r.cfg.Out, "cases_random"))
+	for i, cf := range cfs {
+		r.res.CorrFiles = append(r.res.CorrFiles, cf.WriteTo(r.cfg.Out, fmt.Sprintf("cases_random%d", i)))
+	}
 }
